@@ -174,11 +174,41 @@ theorem effLimit_ge (limit : K) : (1001 / 1000 : K) ≤ effLimit limit := by
   · exact le_refl _
   · next h => exact not_lt.mp h
 
-/-! ### miter-clip: the library interpolates along the miter edges instead of cutting at `limit·hw`
+/-! ### miter-clip: the cut perpendicular to the bisector at `limit·hw` from the vertex
 
-`path_stroke.go:161-172` (and its TODO at line 125): `mid0 := rhs.Pos().Interpolate(mid, t)` with
-`t = |limit·hw/d|` moves the fraction `t` along the edge from the offset corner to the tip; the corner
-it produces is farther than `limit·hw` from the vertex. -/
+`path_stroke.go` MiterJoiner.Join, clip branch: `mid0 := rhs.Pos().Interpolate(mid, t)` and
+`mid1 := rEnd.Interpolate(mid, t)` with `t = (limit·hw·|d| − hw²)/(d² − hw²)`. Along the bisector the
+offset corners are at `hw²/|d|` and the tip at `|d|`, so both cut corners are at exactly `limit·hw`
+(the SVG 2 `miter-clip` shape). Components along the bisector are written as dot products with
+`tip − pivot`, whose length is `|d| = miterAbsD`. -/
+
+/-- both end normals have the component `hw²/|d|` along the bisector: `n·(tip − pivot) = hw²` (left bend) -/
+theorem miter_normal_dot_tip (hw : K) (pivot n0 n1 : Pt K)
+    (h0 : dot n0 n0 = hw * hw) (h1 : dot n1 n1 = hw * hw) (hden : miterDen hw n0 n1 ≠ 0)
+    (hcw : cwTurn n0 n1 = false) :
+    dot n0 (psub (miterTip hw pivot n0 n1) pivot) = hw * hw ∧
+    dot n1 (psub (miterTip hw pivot n0 n1) pivot) = hw * hw := by
+  have hs : hw * hw / miterDen hw n0 n1 * miterDen hw n0 n1 = hw * hw := div_mul_cancel₀ _ hden
+  have hD : miterDen hw n0 n1 = hw * hw + (n0.x * n1.x + n0.y * n1.y) := rfl
+  simp only [miterTip, hcw, Bool.false_eq_true, if_false]
+  generalize hw * hw / miterDen hw n0 n1 = s at *
+  generalize miterDen hw n0 n1 = D at *
+  simp only [dot, psub, padd, smul] at *
+  constructor
+  · linear_combination s * h0 + hs - s * hD
+  · linear_combination s * h1 + hs - s * hD
+
+/-- `|tip − pivot|² = dist2 tip pivot` as a dot product -/
+theorem tip_dot_self (hw : K) (pivot n0 n1 : Pt K) :
+    dot (psub (miterTip hw pivot n0 n1) pivot) (psub (miterTip hw pivot n0 n1) pivot)
+      = dist2 (miterTip hw pivot n0 n1) pivot := by
+  simp only [dot, psub, dist2]; ring
+
+/-- component along the bisector (times `|d|`) of the point at fraction `t` of a miter edge -/
+theorem miter_edge_point_bisector (t : K) (pivot n q : Pt K) :
+    dot (psub (lerp (padd pivot n) q t) pivot) (psub q pivot)
+      = (1 - t) * dot n (psub q pivot) + t * dot (psub q pivot) (psub q pivot) := by
+  simp only [dot, psub, padd, lerp]; ring
 
 /-- squared distance from the vertex of a point at fraction `t` of the edge corner → tip (left bend) -/
 theorem miter_edge_point_dist2 (hw t : K) (pivot n0 n1 : Pt K)
@@ -195,16 +225,70 @@ theorem miter_edge_point_dist2 (hw t : K) (pivot n0 n1 : Pt K)
   linear_combination ((1 - t) ^ 2 + 2 * t * (1 - t) * s) * h0 + 2 * t * (1 - t) * hs
     - 2 * t * (1 - t) * s * hD
 
-/-- Full statement: no point emitted by a miter-type joiner is farther than `limit·hw` from the vertex. -/
-def miter_within_limit_statement (K : Type) [Field K] [LinearOrder K] [IsStrictOrderedRing K] [Env K] : Prop :=
-  ∀ (gap : Bool) (limit hw : K) (pivot n0 n1 : Pt K), 0 < hw →
-    dot n0 n0 = hw * hw → dot n1 n1 = hw * hw → 0 < miterDen hw n0 n1 →
-    ∀ c ∈ (miterJoin gap limit hw pivot n0 n1 (padd pivot n0) (psub pivot n0)).1 ++
-          (miterJoin gap limit hw pivot n0 n1 (padd pivot n0) (psub pivot n0)).2,
-      dist2 (endOf c) pivot ≤ (effLimit limit * hw) ^ 2
+/-- what `SqrtSpec` gives for `|d|`: non-negative, `|d|² = |tip − pivot|²`, and `|d| ≥ hw` -/
+theorem miterAbsD_spec (hS : SqrtSpec K) (hw : K) (pivot n0 n1 : Pt K) (hhw : 0 < hw)
+    (h0 : dot n0 n0 = hw * hw) (h1 : dot n1 n1 = hw * hw) (hden : 0 < miterDen hw n0 n1) :
+    0 ≤ miterAbsD hw n0 n1 ∧
+    miterAbsD hw n0 n1 * miterAbsD hw n0 n1 = dist2 (miterTip hw pivot n0 n1) pivot ∧
+    hw ≤ miterAbsD hw n0 n1 := by
+  have hd2 := miter_tip_dist2 hw pivot n0 n1 h0 h1 (ne_of_gt hden)
+  have hnn : 0 ≤ 2 * (hw * hw) * (hw * hw) / miterDen hw n0 n1 := by positivity
+  obtain ⟨hs0, hs2⟩ := hS _ hnn
+  have hD2 : miterAbsD hw n0 n1 * miterAbsD hw n0 n1 = dist2 (miterTip hw pivot n0 n1) pivot := by
+    rw [hd2]; unfold miterAbsD; simp only [Ops.sqrt]; rw [← pow_two]; exact hs2
+  refine ⟨hs0, hD2, ?_⟩
+  -- den ≤ 2hw² (Cauchy–Schwarz for two vectors of length hw), hence |d|² ≥ hw²
+  have hcs : miterDen hw n0 n1 ≤ 2 * (hw * hw) := by
+    simp only [miterDen, dot] at h0 h1 ⊢
+    nlinarith [sq_nonneg (n0.x - n1.x), sq_nonneg (n0.y - n1.y)]
+  have hT : hw * hw ≤ dist2 (miterTip hw pivot n0 n1) pivot := by
+    rw [hd2, le_div_iff₀ hden]
+    have hw2 : 0 ≤ hw * hw := le_of_lt (mul_pos hhw hhw)
+    nlinarith [mul_le_mul_of_nonneg_left hcs hw2]
+  by_contra hlt
+  push Not at hlt
+  have : miterAbsD hw n0 n1 * miterAbsD hw n0 n1 < hw * hw := mul_self_lt_mul_self hs0 hlt
+  linarith
 
-/-- Proved part: everything except the clipping branch of `MiterClipJoin` (`GapJoiner == nil`). -/
-theorem miter_within_limit_partial (gap : Bool) (limit hw : K) (pivot n0 n1 : Pt K) (hhw : 0 < hw)
+/-- Both corners of a clipped left-bend miter-clip join lie exactly `limit·hw` from the vertex along the
+bisector: `(c − pivot)·(tip − pivot) = limit·hw·|d|`. -/
+theorem miterclip_cut_at_limit (hS : SqrtSpec K) (limit hw : K) (pivot n0 n1 : Pt K) (hhw : 0 < hw)
+    (h0 : dot n0 n0 = hw * hw) (h1 : dot n1 n1 = hw * hw) (hden : 0 < miterDen hw n0 n1)
+    (hcw : cwTurn n0 n1 = false) (hne : pointEquals n0 (pneg n1) = false)
+    (hclip : miterClipped (effLimit limit) hw n0 n1 = true) :
+    ∃ c0 c1, (miterJoin false limit hw pivot n0 n1 (padd pivot n0) (psub pivot n0)).1
+        = [.L c0, .L c1, .L (padd pivot n1)] ∧
+      dot (psub c0 pivot) (psub (miterTip hw pivot n0 n1) pivot) = effLimit limit * hw * miterAbsD hw n0 n1 ∧
+      dot (psub c1 pivot) (psub (miterTip hw pivot n0 n1) pivot) = effLimit limit * hw * miterAbsD hw n0 n1 := by
+  obtain ⟨hn0, hn1⟩ := miter_normal_dot_tip hw pivot n0 n1 h0 h1 (ne_of_gt hden) hcw
+  obtain ⟨hD0, hD2, hDhw⟩ := miterAbsD_spec hS hw pivot n0 n1 hhw h0 h1 hden
+  have hdec := (miter_limit_decision (effLimit limit) hw pivot n0 n1 hhw h0 h1 hden).mp hclip
+  have hl : (1 : K) < effLimit limit := lt_of_lt_of_le (by norm_num) (effLimit_ge limit)
+  -- |d|² − hw² ≠ 0 : clipped means |d| > limit·hw > hw
+  have hne' : miterAbsD hw n0 n1 * miterAbsD hw n0 n1 - hw * hw ≠ 0 := by
+    rw [hD2]
+    have h2 : 1 < effLimit limit * effLimit limit := by nlinarith
+    have h3 := mul_lt_mul_of_pos_left h2 (mul_pos hhw hhw)
+    have h4 : (effLimit limit * hw) ^ 2 = hw * hw * (effLimit limit * effLimit limit) := by ring
+    linarith
+  refine ⟨lerp (padd pivot n0) (miterTip hw pivot n0 n1) (clipT (effLimit limit) hw n0 n1),
+    lerp (padd pivot n1) (miterTip hw pivot n0 n1) (clipT (effLimit limit) hw n0 n1), ?_, ?_, ?_⟩
+  · simp [miterJoin, hne, hclip, hcw]
+  · rw [miter_edge_point_bisector, hn0, tip_dot_self, ← hD2]
+    have ht : clipT (effLimit limit) hw n0 n1 * (miterAbsD hw n0 n1 * miterAbsD hw n0 n1 - hw * hw)
+        = effLimit limit * hw * miterAbsD hw n0 n1 - hw * hw := by
+      simp only [clipT]; exact div_mul_cancel₀ _ hne'
+    linear_combination ht
+  · rw [miter_edge_point_bisector, hn1, tip_dot_self, ← hD2]
+    have ht : clipT (effLimit limit) hw n0 n1 * (miterAbsD hw n0 n1 * miterAbsD hw n0 n1 - hw * hw)
+        = effLimit limit * hw * miterAbsD hw n0 n1 - hw * hw := by
+      simp only [clipT]; exact div_mul_cancel₀ _ hne'
+    linear_combination ht
+
+/-- Inside the disc: no point emitted by a miter-type joiner is farther than `limit·hw` from the vertex,
+except the two cut corners of a clipping joiner (which are at `limit·hw` along the bisector,
+`miterclip_cut_at_limit`, and off the bisector by half the length of the cut). -/
+theorem miter_within_disc_unless_clipped (gap : Bool) (limit hw : K) (pivot n0 n1 : Pt K) (hhw : 0 < hw)
     (h0 : dot n0 n0 = hw * hw) (h1 : dot n1 n1 = hw * hw) (hden : 0 < miterDen hw n0 n1)
     (hclass : ¬(miterClipped (effLimit limit) hw n0 n1 = true ∧ gap = false)) :
     ∀ c ∈ (miterJoin gap limit hw pivot n0 n1 (padd pivot n0) (psub pivot n0)).1 ++
@@ -243,40 +327,77 @@ theorem miter_within_limit_partial (gap : Bool) (limit hw : K) (pivot n0 n1 : Pt
       simp only [Bool.false_eq_true, if_false] at hc
       split at hc <;> simp at hc <;> rcases hc with rfl | rfl | rfl <;> simpa [endOf]
 
-/-- Witness of the defect: for every clipped left-bend miter-clip join the first corner the library emits,
-`rhs.Pos().Interpolate(mid, t)`, is strictly farther than `limit·hw` from the vertex. -/
-theorem miterclip_overshoot (hS : SqrtSpec K) (limit hw : K) (pivot n0 n1 : Pt K) (hhw : 0 < hw)
-    (h0 : dot n0 n0 = hw * hw) (h1 : dot n1 n1 = hw * hw) (hden : 0 < miterDen hw n0 n1)
-    (hcw : cwTurn n0 n1 = false) (hne : pointEquals n0 (pneg n1) = false)
-    (hclip : miterClipped (effLimit limit) hw n0 n1 = true) :
-    ∃ c rest, (miterJoin false limit hw pivot n0 n1 (padd pivot n0) (psub pivot n0)).1 = .L c :: rest ∧
-      (effLimit limit * hw) ^ 2 < dist2 c pivot := by
-  refine ⟨lerp (padd pivot n0) (miterTip hw pivot n0 n1) (clipT (effLimit limit) hw n0 n1),
-    [.L (lerp (padd pivot n1) (miterTip hw pivot n0 n1) (clipT (effLimit limit) hw n0 n1)), .L (padd pivot n1)], ?_, ?_⟩
-  · simp [miterJoin, hne, hclip, hcw]
-  · have hl : (0 : K) < effLimit limit := lt_of_lt_of_le (by norm_num) (effLimit_ge limit)
-    have hdec := (miter_limit_decision (effLimit limit) hw pivot n0 n1 hhw h0 h1 hden).mp hclip
-    have hd2 := miter_tip_dist2 hw pivot n0 n1 h0 h1 (ne_of_gt hden)
-    have hnn : 0 ≤ 2 * (hw * hw) * (hw * hw) / miterDen hw n0 n1 := by positivity
-    obtain ⟨hs0, hs2⟩ := hS _ hnn
-    rw [miter_edge_point_dist2 hw _ pivot n0 n1 h0 h1 (ne_of_gt hden) hcw]
-    unfold clipT miterAbsD
-    simp only [Ops.sqrt]
-    rw [hd2] at hdec ⊢
-    generalize (Env.sqrt (2 * (hw * hw) * (hw * hw) / miterDen hw n0 n1) : K) = R at *
-    generalize 2 * (hw * hw) * (hw * hw) / miterDen hw n0 n1 = T at *
-    -- R ≥ 0, R² = T, (lim hw)² < T
-    have hLH : 0 < effLimit limit * hw := mul_pos hl hhw
-    have hRpos : 0 < R := by
-      rcases lt_or_eq_of_le hs0 with h | h
-      · exact h
-      · exfalso; rw [← h] at hs2; nlinarith [sq_nonneg (effLimit limit * hw)]
-    have ht : (effLimit limit * hw / R) ^ 2 * T = (effLimit limit * hw) ^ 2 := by
-      rw [← hs2]; field_simp
-    have ht1 : (effLimit limit * hw / R) ^ 2 < 1 := by
-      rw [div_pow, div_lt_one (by positivity)]; rw [hs2]; exact hdec
-    have hw2 : 0 < hw * hw := mul_pos hhw hhw
-    nlinarith [mul_pos hw2 (sub_pos.mpr ht1)]
+/-- Along the bisector EVERY point a miter-type joiner puts on the outer side of a left bend — bevel,
+tip, cut corners, end point; clipped or not, `MiterJoin` or `MiterClipJoin` — is at most `limit·hw` from
+the vertex: `(c − pivot)·(tip − pivot) ≤ limit·hw·|d|`. -/
+theorem miter_bisector_within_limit (hS : SqrtSpec K) (gap : Bool) (limit hw : K) (pivot n0 n1 : Pt K)
+    (hhw : 0 < hw) (h0 : dot n0 n0 = hw * hw) (h1 : dot n1 n1 = hw * hw) (hden : 0 < miterDen hw n0 n1)
+    (hcw : cwTurn n0 n1 = false) :
+    ∀ c ∈ (miterJoin gap limit hw pivot n0 n1 (padd pivot n0) (psub pivot n0)).1,
+      dot (psub (endOf c) pivot) (psub (miterTip hw pivot n0 n1) pivot)
+        ≤ effLimit limit * hw * miterAbsD hw n0 n1 := by
+  obtain ⟨hn0, hn1⟩ := miter_normal_dot_tip hw pivot n0 n1 h0 h1 (ne_of_gt hden) hcw
+  obtain ⟨hD0, hD2, hDhw⟩ := miterAbsD_spec hS hw pivot n0 n1 hhw h0 h1 hden
+  have hl : (1 : K) ≤ effLimit limit := le_trans (by norm_num) (effLimit_ge limit)
+  -- the end point pivot + n1 : hw² ≤ limit·hw·|d|
+  have hend : dot (psub (padd pivot n1) pivot) (psub (miterTip hw pivot n0 n1) pivot)
+      ≤ effLimit limit * hw * miterAbsD hw n0 n1 := by
+    have : dot (psub (padd pivot n1) pivot) (psub (miterTip hw pivot n0 n1) pivot) = hw * hw := by
+      rw [← hn1]; simp only [dot, psub, padd]; ring
+    rw [this]
+    have h1' : hw * hw ≤ hw * miterAbsD hw n0 n1 := mul_le_mul_of_nonneg_left hDhw (le_of_lt hhw)
+    have h2' : hw * miterAbsD hw n0 n1 ≤ effLimit limit * (hw * miterAbsD hw n0 n1) :=
+      le_mul_of_one_le_left (mul_nonneg (le_of_lt hhw) hD0) hl
+    nlinarith
+  intro c hc
+  unfold miterJoin bevelJoin at hc
+  split at hc
+  · simp at hc; subst hc; simpa [endOf] using hend
+  · simp only [] at hc
+    split at hc
+    · simp at hc; subst hc; simpa [endOf] using hend
+    · next hng =>
+      cases hcl : miterClipped (effLimit limit) hw n0 n1
+      · -- not clipped: tip and end point
+        have htip := miter_tip_within_limit (effLimit limit) hw pivot n0 n1 hhw h0 h1 hden hcl
+        rw [hcl] at hc
+        simp only [Bool.false_eq_true, if_false, hcw] at hc
+        simp at hc
+        rcases hc with rfl | rfl
+        · simp only [endOf]
+          rw [tip_dot_self, ← hD2]
+          -- |d|² ≤ limit·hw·|d|  from  |d|² ≤ (limit·hw)²
+          have hLH : 0 ≤ effLimit limit * hw := mul_nonneg (le_trans zero_le_one hl) (le_of_lt hhw)
+          have hle : miterAbsD hw n0 n1 ≤ effLimit limit * hw := by
+            by_contra hgt
+            push Not at hgt
+            have : (effLimit limit * hw) ^ 2 < miterAbsD hw n0 n1 * miterAbsD hw n0 n1 := by nlinarith
+            rw [hD2] at this
+            linarith
+          nlinarith [mul_le_mul_of_nonneg_right hle hD0]
+        · simpa [endOf] using hend
+      · -- clipped (then gap = false): the two cut corners and the end point
+        have hgap : gap = false := by
+          cases gap
+          · rfl
+          · simp [hcl] at hng
+        subst hgap
+        have hne : pointEquals n0 (pneg n1) = false := by
+          cases h : pointEquals n0 (pneg n1)
+          · rfl
+          · rename_i hne'; exact absurd h hne'
+        obtain ⟨c0, c1, hlist, hc0, hc1⟩ :=
+          miterclip_cut_at_limit hS limit hw pivot n0 n1 hhw h0 h1 hden hcw hne hcl
+        have hc' : c ∈ (miterJoin false limit hw pivot n0 n1 (padd pivot n0) (psub pivot n0)).1 := by
+          unfold miterJoin bevelJoin
+          simp only [hne, Bool.false_eq_true, if_false, hcl, Bool.and_false]
+          simpa [hcl, hcw] using hc
+        rw [hlist] at hc'
+        simp at hc'
+        rcases hc' with rfl | rfl | rfl
+        · simp only [endOf]; exact le_of_eq hc0
+        · simp only [endOf]; exact le_of_eq hc1
+        · simpa [endOf] using hend
 
 /-! ## call protocol of `offset()` -/
 section protocol
